@@ -18,6 +18,7 @@ type GenWorld struct {
 	Net  *Net
 	T    *SimTransport
 	gen  turn.RelayAddressGenerator
+	gen2 turn.RelayAddressGenerator // a second instance with the same configuration (one per ListenerConfig is the usual set-up)
 	kind string
 	min, max int
 	relayIP net.IP
@@ -103,6 +104,19 @@ func (w *GenWorld) start() {
 	if err := w.gen.Validate(); err != nil {
 		w.viol("validate-failed", nil, "Validate() of a well-formed configuration failed: %v", err)
 	}
+	if cfg.Extra["two_gens"] == 1 {
+		switch g := w.gen.(type) {
+		case *turn.RelayAddressGeneratorPortRange:
+			w.gen2 = &turn.RelayAddressGeneratorPortRange{RelayAddress: g.RelayAddress, MinPort: g.MinPort, MaxPort: g.MaxPort, MaxRetries: g.MaxRetries, Rand: w.rand, Address: g.Address, Net: w.T}
+		case *turn.RelayAddressGeneratorNone:
+			w.gen2 = &turn.RelayAddressGeneratorNone{Address: g.Address, Net: w.T}
+		case *turn.RelayAddressGeneratorStatic:
+			w.gen2 = &turn.RelayAddressGeneratorStatic{RelayAddress: g.RelayAddress, Address: g.Address, Net: w.T}
+		}
+		if err := w.gen2.Validate(); err != nil {
+			w.viol("validate-failed", nil, "Validate() of a well-formed configuration failed: %v", err)
+		}
+	}
 }
 
 func (w *GenWorld) exec(op *Op) {
@@ -129,10 +143,15 @@ func (w *GenWorld) exec(op *Op) {
 			var addr net.Addr
 			var err error
 			o := &genObj{net: op.A.S}
+			g := w.gen
+			if hasFlag(op, "g2") && w.gen2 != nil {
+				g = w.gen2
+				w.K.Stats.Probe("gen_second_instance")
+			}
 			if op.Kind == "gen_pc" {
-				o.pc, addr, err = w.gen.AllocatePacketConn(conf)
+				o.pc, addr, err = g.AllocatePacketConn(conf)
 			} else {
-				o.ln, addr, err = w.gen.AllocateListener(conf)
+				o.ln, addr, err = g.AllocateListener(conf)
 			}
 			w.results++
 			w.judge(op, o, addr, err, before)
@@ -232,7 +251,7 @@ func (w *GenWorld) judge(op *Op, o *genObj, addr net.Addr, err error, before int
 	}
 	for _, x := range w.live {
 		if x.port == port && x.net[:3] == op.A.S[:3] && strings.HasSuffix(x.net, "6") == fam6 {
-			w.viol("shared-port", nil, "port %d handed out while another live object of the same generator holds it", port)
+			w.viol("shared-port", nil, "port %d handed out while another live object of this server's generators holds it", port)
 		}
 	}
 	o.port = port
